@@ -936,10 +936,11 @@ func (ex *Exec) havoc(st *State, ws *WriteSet, why string, fr *Frame) {
 			// every reason for the havoc is a channel operation of this goroutine: storage only it touches survives
 			st.heap.base.except = append(st.heap.base.except, ex.goOwnsKeys()...)
 		}
+		st.heap.base.exceptParent = old
 		// the cell of a captured local variable is reachable only through the function literals that capture it
 		// (language fact): unless such a literal is what is being called, or one of them escaped (stored, passed on,
 		// started as a goroutine), no callee can change it
-		if !ex.inClosureCall {
+		if !ex.inClosureCall && os.Getenv("CSVQVC_NOPRIVATE") == "" {
 			for f := fr; f != nil; f = f.parent {
 				for _, a := range f.allocSeq {
 					if !a.Heap || !privateCell(a) {
@@ -962,7 +963,6 @@ func (ex *Exec) havoc(st *State, ws *WriteSet, why string, fr *Frame) {
 				}
 			}
 		}
-		st.heap.base.exceptParent = old
 		for _, k := range sortedKeyList(ws.keys) {
 			if srt, ok := keySortReg[k]; ok {
 				st.heap.m[k] = Fresh(k+"."+why, srt)
@@ -1928,6 +1928,12 @@ func privateCell(a *ssa.Alloc) bool {
 							break outer
 						}
 					case *ssa.DebugRef:
+					case *ssa.Store:
+						// the literal is kept in a local variable that is only ever called
+						if c.Val != ssa.Value(i) || !calledOnlyLocal(c.Addr) {
+							res = false
+							break outer
+						}
 					default:
 						res = false
 						break outer
@@ -1941,4 +1947,43 @@ func privateCell(a *ssa.Alloc) bool {
 	}
 	privateCellMemo[a] = res
 	return res
+}
+
+// calledOnlyLocal: addr is a local variable (not captured, address not taken) whose value is only ever called.
+func calledOnlyLocal(addr ssa.Value) bool {
+	a, ok := addr.(*ssa.Alloc)
+	if !ok || a.Heap || a.Referrers() == nil {
+		return false
+	}
+	for _, r := range *a.Referrers() {
+		switch i := r.(type) {
+		case *ssa.Store:
+			if i.Addr != ssa.Value(a) {
+				return false
+			}
+		case *ssa.DebugRef:
+		case *ssa.UnOp:
+			if i.Op.String() != "*" || i.Referrers() == nil {
+				return false
+			}
+			for _, u := range *i.Referrers() {
+				switch c := u.(type) {
+				case *ssa.Call:
+					if c.Call.Value != ssa.Value(i) {
+						return false
+					}
+				case *ssa.Defer:
+					if c.Call.Value != ssa.Value(i) {
+						return false
+					}
+				case *ssa.DebugRef:
+				default:
+					return false
+				}
+			}
+		default:
+			return false
+		}
+	}
+	return true
 }
